@@ -74,7 +74,13 @@ macro_rules! from_hex {
     // Uses Deserialize trait to auto-generate one
     ($name:ident) => {
         from_hex!($name, hex_str, {
-            let mut raw = Deserializer::from(std::io::Cursor::new(hex::decode(hex_str).unwrap()));
+            let bytes = hex::decode(hex_str).map_err(|e| {
+                DeserializeError::new(
+                    stringify!($name),
+                    DeserializeFailure::CustomError(format!("invalid hex string: {}", e)),
+                )
+            })?;
+            let mut raw = Deserializer::from(std::io::Cursor::new(bytes));
             Self::deserialize(&mut raw)
         });
     };
